@@ -446,7 +446,7 @@ class Simulation:
         self._summary = self._build_summary()
         return self._summary
 
-    def _execute_until(self, end_time_ns: int) -> None:
+    def _execute_until(self, end_time_ns: int, *, stop_at_boundary: bool = False) -> None:
         """Run the pop-invoke-push loop until time exceeds end_time_ns.
 
         This is the extracted inner loop shared by ``_run_loop_fast`` (normal
@@ -468,8 +468,15 @@ class Simulation:
         events_processed = self._events_processed
         events_cancelled = self._events_cancelled
         router = self._event_router
+        heap_peek = heap.peek
 
         while heap_has_events() and current_time.nanoseconds <= end_time_ns:
+            # Windowed (parallel) execution must not run past the window: an
+            # event beyond the boundary would advance the clock and make
+            # cross-partition events arriving at the barrier look like time travel.
+            if stop_at_boundary and heap_peek().time.nanoseconds > end_time_ns:
+                break
+
             event = heap_pop()
 
             if event._cancelled:
@@ -538,7 +545,7 @@ class Simulation:
 
         with _active_sim_context(self._event_heap, self._clock):
             with _active_debugger_context(None):
-                self._execute_until(window_end.nanoseconds)
+                self._execute_until(window_end.nanoseconds, stop_at_boundary=True)
 
     def _build_summary(self) -> SimulationSummary:
         """Build a SimulationSummary from current state."""
